@@ -149,7 +149,13 @@ impl MetaStore {
         partition: PartitionID,
         column_name: &str,
     ) -> bool {
-        self.partitions[table_name][&partition].subpartition_has_been_loaded(column_name)
+        // A partition created by a running flush is already visible to queries (Table::batch) but
+        // only registered here once its files are written. It is fully resident: a column without
+        // a handle does not exist.
+        match self.partitions.get(table_name).and_then(|p| p.get(&partition)) {
+            Some(metadata) => metadata.subpartition_has_been_loaded(column_name),
+            None => true,
+        }
     }
 
     pub fn mark_subpartition_as_loaded(
